@@ -94,6 +94,14 @@ func cmdShut(args []string) error {
 		"closedelete.enter": true, "closedelete.locked": true, "close.unregistered": true, "open.cachemiss": true, "open.beforeregister": true, "view.updateafter": true}
 	ctl.BlockTimeout = 40 * time.Millisecond
 	opening := has("open1") || has("open2")
+	var pendAt time.Time
+	if opening {
+		// the bucket holds a pending expiration: every open arms a timer for it, and none of them may outlive the store
+		pendAt = time.Now().Add(2 * time.Second)
+		if err := c.SetRaw("pend", uint32(pendAt.Unix()), nil, []byte("p")); err != nil {
+			return err
+		}
+	}
 	if opening && !has("closelast") {
 		b.Close(ctx) // the bucket exists on disk but is not registered
 	}
@@ -231,6 +239,12 @@ func cmdShut(args []string) error {
 	if has("writer") {
 		// a timer armed by the writer after the store was shut down would fire now (and panic the process)
 		time.Sleep(2200 * time.Millisecond)
+	}
+	if opening {
+		// ... and so would a timer armed by an opener that lost the race for the registration
+		if d := time.Until(pendAt.Add(1500 * time.Millisecond)); d > 0 {
+			time.Sleep(d)
+		}
 	}
 	js, _ := json.Marshal(line)
 	fmt.Println("SHUT " + string(js))
